@@ -237,6 +237,21 @@ CLAIMS = {
              "document) and 85673dd (reading cell.style marked the style as changed). Trusted: " + TB,
         technique="contract-based deductive verification (heap-record contracts on the setters, per-side call-effect contracts, dominance and "
                   "stamping obligations, precedence lemma) + bounded edge-model / style round-trip stand-in (mixed)"),
+    "C16": dict(
+        category="other", design="DESIGN.md section 7 C16",
+        text="Mixed. Proved (contract-based, real model.py): recalculate_row_headers for any number of rows (loop invariant over the header list): "
+             "header r has index r, the row's cell count, and as size the session-cached height less floor(border allowance) if the row was "
+             "read or set, otherwise exactly the size stored in the source document - so rows that were never queried keep their size; "
+             "recalculate_column_headers likewise with col_width(c) - floor(border allowance) (two loops, widths collected before the stored "
+             "headers are cleared); lemma GEOMETRY-STABLE over the reader's formula floor(round(s)+b): the written size reads back as the same "
+             "height for every allowance b >= 0 and a second cycle writes the same size (no drift), with a vacuity guard showing the pinned "
+             "writer drifts. The readers' float arithmetic, names, captions, header counts, coordinates and whole documents over 1..3 cycles: "
+             "bounded stand-in, so the level is not 'proof'.",
+        note="Assumes ghost records for protobuf header lists and session caches, sizes as integers, floor(border allowance) uninterpreted. Genuine "
+             "defect repaired: fix: commit 08975f9 (unqueried row heights were written as 0.0 = default; sizes of bordered rows/columns grew on "
+             "every save). Trusted: " + TB,
+        technique="contract-based deductive verification (loop invariants over ghost header lists and symbolic maps, LIA/LRA stability lemma) + "
+                  "bounded save/reopen cycle stand-in (mixed)"),
 }
 NA_REASON = "check not built yet (build in progress; see DESIGN.md section 7 for the plan)"
 
